@@ -5,6 +5,7 @@ trading was always on. Property theorems only.
 import Bourse.Model.Ops
 import Bourse.Spec.Views
 import Bourse.Spec.Ref
+import Bourse.Lemmas.Reach
 
 namespace Bourse.Props.C02
 open Bourse
@@ -52,6 +53,42 @@ theorem init_views (t0 tick : Nat) (trading : Bool) (n : Nat) :
     Book.askBestVolAndOrders, SideS.bestVolAndOrders, Book.bidBestVol, Book.askBestVol, SideS.bestVol,
     Book.bidLevels, Book.askLevels, SideS.volAndOrdersAtKey, SMap.find?, Views.levels, Views.level,
     Book.level1, Book.level2, Views.level1, Views.level2, Book.mid2, Views.mid2, MAXP]
+
+/-- **The separately maintained aggregates never drift**: in every state reachable by valid
+fault-free operations, for every price key the published (volume, order count) of that level is
+exactly the (sum of remaining volumes, number) of the orders queued there, the side's total volume
+is the sum over its whole queue, every queue entry is an Active order of that side carrying that
+key with positive volume, and every Active order is queued exactly once under its key. -/
+theorem aggregates_exact (t0 tick : Nat) (trading : Bool) (ht : 0 < tick) (ops : List Op)
+    (hv : ∀ op ∈ ops, ValidOp op) (hnf : NoFault (Book.new t0 tick trading) ops) :
+    let b := (Book.new t0 tick trading).run ops
+    ∀ sd, (∀ pk, SMap.find? pk (b.side sd).volumes =
+             (if (aggAt b.orders (b.side sd).orders pk).2 = 0 then none else some (aggAt b.orders (b.side sd).orders pk))) ∧
+          (b.side sd).vol = totalVol b.orders (b.side sd).orders ∧
+          (∀ (k : Nat × Nat) (id : Nat), (k, id) ∈ (b.side sd).orders → EntryOk b.orders sd b.stamp k id) ∧
+          (∀ (id : Nat) (e : Entry), b.orders[id]? = some e → e.order.status = .active → e.order.side = sd →
+             ((e.key.pk, e.key.st), id) ∈ (b.side sd).orders) := by
+  intro b sd
+  have h := inv_reachable t0 tick trading ht ops hv hnf
+  refine ⟨(h.side sd).agg, (h.side sd).tot, (h.side sd).ent, ?_⟩
+  intro id e he ha hs
+  have := h.act id e he ha
+  rw [hs] at this; exact this
+
+/-- The touch never shows a side that is empty in the table, nor misses one that is not: a side's
+queue is empty exactly when no Active order of that side exists. -/
+theorem queue_empty_iff (b : Book) (h : Inv b) (sd : Side) :
+    (b.side sd).orders = [] ↔ ∀ (id : Nat) (e : Entry), b.orders[id]? = some e → e.order.status = .active → e.order.side ≠ sd := by
+  constructor
+  · intro hq id e he ha hs
+    have := h.act id e he ha
+    rw [hs, hq] at this; cases this
+  · intro hall
+    cases hq : (b.side sd).orders with
+    | nil => rfl
+    | cons hd tl =>
+      obtain ⟨e, he, ha, hs, _⟩ := (h.side sd).ent hd.1 hd.2 (by rw [hq]; exact List.mem_cons_self)
+      exact absurd hs (hall _ e he ha)
 
 /-- Non-vacuity / concrete reading: a two-level book with a partially filled head order, after
 a cancel and a re-price, publishes exactly the recomputation from its order list. -/
